@@ -103,3 +103,32 @@ PROPS["C06"] = {
             "distinct = distinct methods and statuses (every cell of their product with 2 x 5 x 5 header combinations is evaluated)",
     "assumptions": ["Content-Length values with sign or leading zeros are outside the quantifier and not generated"],
 }
+
+REQ_ASSUME = ["the request is described to the specification through the flow's own getters (method, uri, version, headers); C13-C15 check those getters against the redirect rules",
+              "line lengths of the head come from a reference run with one 64 KiB buffer, whose content the head guard checks against the request"]
+PROPS["C02"] = {
+    "driver": "c02", "trace_spec": "TraceSendHead",
+    "mc_quick": [mc("MCSendHead", "MCSendHead.cfg"), mc("MCSendHead", "MCSendHead_f3.cfg", expect_violation="Refines")],
+    "require_classes": ["srw:overflow", "srw:after-complete", "srw:zero", "req:accepted"],
+    "rule": "one case = one absolute-URI request (9 methods, HTTP/1.0/1.1, 0..60 original + 0..58 added headers incl. repeated names / obs-text / empty values, "
+            "explicit/missing Host, optional CL or TE, despite-method, redirect depth 0..3, Flow and both Call constructors) x 5-8 buffer schedules "
+            "(longest line +-1/2, exact line lengths, alternating short/long, random) + 3 calls after completion; distinct = distinct (method, version, api, depth, header-count classes)",
+    "assumptions": REQ_ASSUME,
+}
+PROPS["C16"] = {
+    "driver": "c16", "trace_spec": "TraceSendHead",
+    "mc_quick": [mc("MCSendHead", "MCSendHead.cfg")],
+    "require_classes": ["c16:added-on-redirected", "req:accepted"],
+    "rule": "one case = a flow at redirect depth 0..3 (both auth policies) whose original request carries cookie/authorization/content-length, with 0..58 caller-added headers "
+            "drawn from cookie, authorization, content-length, host, connection, x-*; the head is written through buffer schedules and lexed; distinct = distinct (method, depth, count class, policy)",
+    "assumptions": REQ_ASSUME,
+}
+PROPS["C17"] = {
+    "driver": "c17", "trace_spec": "TraceSendHead",
+    "mc_quick": [mc("MCSendHead", "MCSendHead.cfg")],
+    "require_classes": ["req:rejected", "req:accepted"],
+    "rule": "one case = one cell of versions {0.9,1.0,1.1,2,3} x 9 methods x Host {none, orig, added, orig+added, two, non-text} x Content-Length {none,5,0,two,-1,abc,non-UTF-8,added,orig+added} "
+            "x Transfer-Encoding {none, chunked, non-text, added} x despite x {Flow, Call::without_body, Call::with_body}; three writes with buffers {0,16,large} on rejected requests; "
+            "quick = a stratified ninth (by seed), thorough = all; distinct = distinct cells",
+    "assumptions": REQ_ASSUME,
+}
